@@ -11,8 +11,8 @@ import (
 func init() {
 	register(&Property{
 		Meta: PropMeta{
-			ID:    "C07",
-			Level: "other",
+			ID:          "C07",
+			Level:       "other",
 			Explanation: "Structural necessary conditions of 'unknown options are never silently accepted', decided on the SSA of /repo for all paths: (EXACT) the option handed to parseOption is the result of an exact map lookup in parseState.lookup keyed by the untransformed name (long) or by the string of the current rune (short), and no prefix/case-folding/nearest-match function occurs in that provenance; (MISS) the nil edge of that lookup returns newErrorf(ErrUnknownFlag, …) naming the looked-up name; (TABLES) the lookup maps are written only by fillLookup's group walk, keyed by LongNameWithNamespace() and string(ShortName) of the very option stored, over c.eachGroup of the command itself; makeLookup fills from the parent chain and the command only; parseState.lookup is stored only by fillParseState; the namespace walk of LongNameWithNamespace ends only at the root; (POLICY) the unknown-option handler is called once per iteration with the split name, the inline argument and the not-yet-consumed parseState.args, its slice is adopted unconditionally on the success edge and its error stored on the other; IgnoreUnknown re-queues the very token returned by pop().",
 			NotDecided:  "that the name fed to the lookup is the name the user typed for every spelling (C02); Go map semantics (trusted).",
 			Trusted:     []string{"go/ssa lowering", "go/types", "Go map lookup is exact"},
